@@ -1,7 +1,7 @@
 """Per-property registry and the generic check runner."""
 import json, os, sys, time
 from . import common as C
-from . import gen_civil, gen_posix, gen_zone
+from . import gen_civil, gen_posix, gen_zone, gen_fmt
 
 REGISTRY = {}
 
@@ -219,3 +219,6 @@ reg("C11", gen=gen_zone.gen_c11)
 reg("C10", gen=gen_zone.gen_c10, ub_is_violation=True)
 reg("C12", gen=gen_zone.gen_c12, ub_is_violation=True, model_err_is_violation=True)
 reg("C14", gen=gen_zone.gen_c14, post=gen_zone.post_c14)
+reg("C07", gen=gen_fmt.gen_c07)
+reg("C08", gen=gen_fmt.gen_c08, ub_is_violation=True)
+reg("C09", gen=gen_fmt.gen_c09, ub_is_violation=True)
